@@ -48,7 +48,7 @@ THEME9 = ("This round is about SILENT DEGRADATION. The regression must NOT raise
 theme = THEME9 if rnd == "9" else THEME8 if rnd == "8" else THEME5 if rnd == "5" else (THEME6 if rnd == "6" else (THEME7 if rnd == "7" else ""))
 out = "/tmp/wt/prompts%s" % rnd
 os.makedirs(out, exist_ok=True)
-tpl = open("/tmp/wt/prompts3/C01.txt").read()
+tpl = open(os.path.join(os.path.dirname(os.path.abspath(__file__)), "prompt_template.txt")).read()
 props = {json.loads(l)["id"]: json.loads(l) for l in open("/verif/properties.jsonl")}
 head_end = tpl.index("PROPERTY C01")
 task_start = tpl.index("TASK\n")
